@@ -21,6 +21,7 @@ package dag
 import (
 	"bytes"
 	"encoding/base64"
+	"encoding/json"
 	"errors"
 	"fmt"
 	"math"
@@ -78,16 +79,21 @@ func ParseTransaction(input []byte) (Transaction, error) {
 
 // assertCompactSerialization checks that the input is a JWS in compact serialization (RFC7515 §7.1) in its canonical form:
 // exactly 3 segments separated by a dot, all of them base64url encoded without padding, whitespace or unused trailing bits.
+// The protected header (first segment) must be exactly 1 JSON object, without anything before or after it: the JWS library
+// ignores surrounding bytes, both when parsing the header and when verifying the signature (which it does over the re-encoded JSON object).
 func assertCompactSerialization(input []byte) error {
 	segments := bytes.Split(input, []byte{'.'})
 	if len(segments) != 3 {
 		return errors.New("JWS is not in compact serialization form")
 	}
-	for _, segment := range segments {
+	for i, segment := range segments {
 		decoded, err := base64.RawURLEncoding.Strict().DecodeString(string(segment))
 		// decoder ignores line breaks, so compare with the re-encoded value
 		if err != nil || base64.RawURLEncoding.EncodeToString(decoded) != string(segment) {
 			return errors.New("JWS segment is not base64url encoded (without padding)")
+		}
+		if i == 0 && (len(decoded) < 2 || decoded[0] != '{' || decoded[len(decoded)-1] != '}' || !json.Valid(decoded)) {
+			return errors.New("JWS protected header is not a single JSON object")
 		}
 	}
 	return nil
